@@ -593,12 +593,13 @@ func grpcDecodeTimeout(timeout string) (time.Duration, error) {
 	if unit == 0 {
 		return 0, protocolError("timeout %q has invalid unit", timeout)
 	}
-	num, err := strconv.ParseInt(timeout[:len(timeout)-1], 10 /* base */, 64 /* bitsize */)
+	digits := timeout[:len(timeout)-1]
+	if len(digits) > 8 { // timeout must be ASCII string of at most 8 digits
+		return 0, protocolError("timeout %q is too long", timeout)
+	}
+	num, err := strconv.ParseInt(digits, 10 /* base */, 64 /* bitsize */)
 	if err != nil || num < 0 {
 		return 0, protocolError("invalid timeout %q", timeout)
-	}
-	if num > 99999999 { // timeout must be ASCII string of at most 8 digits
-		return 0, protocolError("timeout %q is too long", timeout)
 	}
 	const grpcTimeoutMaxHours = 8
 	if unit == time.Hour && num > grpcTimeoutMaxHours {
